@@ -15,6 +15,10 @@ from ..oracle import geometry as G
 from ..oracle import c16_miller as M
 from .. import monitor, cover
 
+# monitors are self-sufficient (judge a call from its arguments and result): the repository's own tests run under them
+# as an extra workload in the thorough tier (vf/repotests.py)
+REPOTESTS = True
+
 RULE = ('Integer index triples are ENUMERATED EXHAUSTIVELY in [-4,4]^3 minus 0 (728; thorough [-6,6]^3, 2196) and '
         'presented as (3,), (N,3) and (M,N,3) arrays (int arrays, float arrays, nested lists) to every function; '
         'cells round-robin over 12 kinds (7 families, strongly tilted, rotated triclinic, rotated hexagonal) x 3 '
